@@ -206,9 +206,10 @@ impl<K: KeyT> SetWorld<K> {
         }
         if self.ctx.functional() {
             for (e, _) in &act {
-                let probe = K::view(e.0);
+                let probe_h = K::view(e.0);
+                let probe: &K::View = &*probe_h;
                 let sref = self.slots[si].set.as_ref().unwrap();
-                match self.ctx.call(&nop, || sref.get(&probe).map(|k| k.serial())) {
+                match self.ctx.call(&nop, || sref.get(probe).map(|k| k.serial())) {
                     Out::Ok(Some(s)) if s == e.1 => {}
                     _ => vio!(self, "postpanic/unfindable", "after a {} panic id {} is stored but get() misses it", class.name(), e.0),
                 }
@@ -309,8 +310,9 @@ impl<K: KeyT> SetWorld<K> {
         for (n, e) in model.iter().enumerate() {
             let sref = self.slots[si].set.as_ref().unwrap();
             let got = if n % 2 == 0 {
-                let probe = K::view(e.0);
-                self.ctx.call(&nop, || sref.get(&probe).map(|k| (k.id(), k.serial())))
+                let probe_h = K::view(e.0);
+                let probe: &K::View = &*probe_h;
+                self.ctx.call(&nop, || sref.get(probe).map(|k| (k.id(), k.serial())))
             } else {
                 let probe = K::make(e.0);
                 let r = self.ctx.call(&nop, || sref.get(&probe).map(|k| (k.id(), k.serial())));
@@ -329,9 +331,10 @@ impl<K: KeyT> SetWorld<K> {
             if model.iter().any(|e| e.0 == id) {
                 continue;
             }
-            let probe = K::view(id);
+            let probe_h = K::view(id);
+            let probe: &K::View = &*probe_h;
             let sref = self.slots[si].set.as_ref().unwrap();
-            match self.ctx.call(&nop, || sref.contains(&probe)) {
+            match self.ctx.call(&nop, || sref.contains(probe)) {
                 Out::Ok(false) => {}
                 _ => vio!(self, format!("sweep/{}", self.ctx.op_kind), "contains({id}) is true for an id that is not in the model (or panicked)"),
             }
@@ -509,7 +512,8 @@ impl<K: KeyT> SetWorld<K> {
         fc.arg_serials = vec![ks];
         let present = self.has(si, id);
         let lie = op.k == Kd::GetOrInsertWith && op.b == 1 && K::UNIVERSE > 1;
-        let view = K::view(id);
+        let view_h = K::view(id);
+        let view: &K::View = &*view_h;
         let s = self.slots[si].set.as_mut().unwrap();
         // result: (bool / returned element, returned old instance)
         let mut old_back: Vec<K> = Vec::new();
@@ -542,7 +546,7 @@ impl<K: KeyT> SetWorld<K> {
             }),
             _ => self.ctx.call(op, || {
                 let mut slot = Some(k);
-                let r = s.get_or_insert_with(&view, |_q| {
+                let r = s.get_or_insert_with(view, |_q| {
                     tick(Class::Pred);
                     let k = slot.take().unwrap();
                     if lie {
@@ -635,11 +639,12 @@ impl<K: KeyT> SetWorld<K> {
         let want = self.has(si, id);
         let s = self.slots[si].set.as_ref().unwrap();
         let probe = K::make(id);
-        let view = K::view(id);
+        let view_h = K::view(id);
+        let view: &K::View = &*view_h;
         let out = match op.k {
             Kd::Get => self.ctx.call(op, || s.get(&probe).map(|k| ((k.id(), k.serial()), k.intact()))),
-            Kd::GetView => self.ctx.call(op, || s.get(&view).map(|k| ((k.id(), k.serial()), k.intact()))),
-            _ => self.ctx.call(op, || if s.contains(&view) { Some(((id, 0), true)) } else { None }),
+            Kd::GetView => self.ctx.call(op, || s.get(view).map(|k| ((k.id(), k.serial()), k.intact()))),
+            _ => self.ctx.call(op, || if s.contains(view) { Some(((id, 0), true)) } else { None }),
         };
         drop(probe);
         let Some(got) = self.settle(out, si, fc)? else { return Ok(()) };
@@ -665,12 +670,13 @@ impl<K: KeyT> SetWorld<K> {
         let fc = self.fctx(si, op);
         let want = self.has(si, id);
         let s = self.slots[si].set.as_mut().unwrap();
-        let view = K::view(id);
+        let view_h = K::view(id);
+        let view: &K::View = &*view_h;
         let mut back: Vec<K> = Vec::new();
         let bk = &mut back;
         let out = if op.k == Kd::Take {
             self.ctx.call(op, || {
-                let r = s.take(&view);
+                let r = s.take(view);
                 let t = r.as_ref().map(|k| (k.id(), k.serial()));
                 if let Some(k) = r {
                     bk.push(k);
@@ -678,7 +684,7 @@ impl<K: KeyT> SetWorld<K> {
                 (t.is_some(), t)
             })
         } else {
-            self.ctx.call(op, || (s.remove(&view), None))
+            self.ctx.call(op, || (s.remove(view), None))
         };
         let intact = back.iter().all(|k| k.intact());
         drop(back);
